@@ -1048,14 +1048,17 @@ func (c *Client) DialToSMTPClientWithContext(ctxDial context.Context) (*smtp.Cli
 		client.SetLogAuthData()
 	}
 	if err = client.Hello(c.helo); err != nil {
+		_ = client.Close()
 		return nil, err
 	}
 
 	if err = c.tls(client, &isEncrypted); err != nil {
+		_ = client.Close()
 		return nil, err
 	}
 
 	if err = c.auth(client, isEncrypted); err != nil {
+		_ = client.Close()
 		return nil, err
 	}
 
